@@ -2,7 +2,7 @@
    PARTIAL: proved are (e) validation never drops a diagnostic and (d') a fatal parse error always leaves an Error and
    no tree.  "Exactly when well-formed" needs a grammar-level model of the parser; the check compares the implementation
    with the table-driven model (exact) and with documents whose (mal)formedness is known by construction. *)
-From AidlV Require Import Spec.Master Proofs.Master Proofs.Totality Model.LrDriver Proofs.Typing Proofs.Keywords Proofs.DriverSafe Proofs.Grammar.
+From AidlV Require Import Spec.Master Proofs.Master Proofs.Totality Model.LrDriver Proofs.Typing Proofs.Keywords Proofs.DriverSafe Proofs.Grammar Proofs.FirstSets.
 
 Theorem C03_kept : forall defined a ds0 a' ds d,
   validate_file defined a ds0 = Ok (a', ds) -> In d ds0 -> In d ds.
@@ -85,6 +85,22 @@ Theorem C03_malformed_is_loud : forall cx, length (cx_lc cx) = S (length (cx_src
   exists d, In d (fr_diags fr) /\ d_kind d = DError.
 Proof. exact malformed_is_loud. Qed.
 Print Assumptions C03_malformed_is_loud.
+
+(* which documents are malformed for sure: FIRST of the regenerated grammar's start symbol is the `package` keyword (computed by
+   iteration, accepted through a closure check over all productions), so every derivable token sequence starts with it ... *)
+Theorem C03_wellformed_starts_with_package : forall l, der start_sym l ->
+  exists c text rest, l = (c, text) :: rest /\ nth c gen_terminals ""%string = "PACKAGE"%string.
+Proof. exact wellformed_starts_with_package. Qed.
+Print Assumptions C03_wellformed_starts_with_package.
+
+(* ... and a text that omits the package -- holds no token at all, or starts with any other token -- always gets an Error *)
+Theorem C03_no_package_is_loud : forall cx, length (cx_lc cx) = S (length (cx_src cx)) ->
+  forall id fr, add_content cx id = Added fr ->
+  (forall l, lexes_to_eof (cx_src cx, 0%N) l ->
+     match l with [] => True | (c, _) :: _ => nth c gen_terminals ""%string <> "PACKAGE"%string end) ->
+  exists d, In d (fr_diags fr) /\ d_kind d = DError.
+Proof. exact no_package_is_loud. Qed.
+Print Assumptions C03_no_package_is_loud.
 
 (* non-vacuity: the start symbol is the nonterminal of OptAidl, and a concrete document is derivable *)
 Example C03_ex_start : start_sym = SNT 54 /\ nth (N.to_nat accept_prod) gen_production_text ""%string = "__OptAidl = OptAidl"%string.
